@@ -159,7 +159,8 @@ U256 Modulus::reduce(const U256 &a) const {
     while (cmp(r, m) >= 0) sub_borrow(r, r, m);
     return r;
 }
-U256 Modulus::add(const U256 &a, const U256 &b) const {
+U256 Modulus::add(const U256 &a_in, const U256 &b_in) const {
+    U256 a = reduce(a_in), b = reduce(b_in);
     U256 r;
     uint64_t c = add_carry(r, a, b);
     if (c) { U256 t; add_carry(t, r, this->c); r = t; }  // r + 2^256 == r + c (mod m); no second carry since a,b < m
@@ -416,25 +417,28 @@ void rfc6979_nonce(const uint8_t key32[32], const uint8_t msg32[32], const uint8
         retry = true;
     }
 }
+bool ecdsa_sign_nonce(const U256 &d, const uint8_t msg32[32], const uint8_t k32[32], uint8_t r32[32], uint8_t s32[32], int *recid) {
+    U256 m = scalar_from_be_reduce(msg32);
+    U256 k = U256::from_be(k32);
+    if (k.is_zero() || cmp(k, FN.m) >= 0) return false;
+    Pt R = mulG(k);
+    U256 r = FN.reduce(R.x);
+    if (r.is_zero()) return false;
+    int rid = (R.y.is_odd() ? 1 : 0) | (cmp(R.x, FN.m) >= 0 ? 2 : 0);
+    U256 s = FN.mul(FN.inv(k), FN.add(m, FN.mul(r, d)));
+    if (s.is_zero()) return false;
+    if (cmp(s, HALF_N) > 0) { s = FN.neg(s); rid ^= 1; }
+    r.to_be(r32); s.to_be(s32);
+    if (recid) *recid = rid;
+    return true;
+}
 bool ecdsa_sign_rfc6979(const uint8_t key32[32], const uint8_t msg32[32], const uint8_t *data32, uint8_t r32[32], uint8_t s32[32], int *recid) {
     U256 d = U256::from_be(key32);
     if (d.is_zero() || cmp(d, FN.m) >= 0) return false;
-    U256 m = scalar_from_be_reduce(msg32);
     for (unsigned cnt = 0;; cnt++) {
         uint8_t k32[32];
         rfc6979_nonce(key32, msg32, data32, nullptr, cnt, k32);
-        U256 k = U256::from_be(k32);
-        if (k.is_zero() || cmp(k, FN.m) >= 0) continue;
-        Pt R = mulG(k);
-        U256 r = FN.reduce(R.x);
-        if (r.is_zero()) continue;
-        int rid = (R.y.is_odd() ? 1 : 0) | (cmp(R.x, FN.m) >= 0 ? 2 : 0);
-        U256 s = FN.mul(FN.inv(k), FN.add(m, FN.mul(r, d)));
-        if (s.is_zero()) continue;
-        if (cmp(s, HALF_N) > 0) { s = FN.neg(s); rid ^= 1; }
-        r.to_be(r32); s.to_be(s32);
-        if (recid) *recid = rid;
-        return true;
+        if (ecdsa_sign_nonce(d, msg32, k32, r32, s32, recid)) return true;
     }
 }
 
